@@ -134,6 +134,14 @@ def table_case(case, acc, ctx, keys):
         new_key = f"{keyfam}_0.v2" if case.get("dotted") else f"{keyfam}_der" if case.get("der") else f"{keyfam}_0"
         matching = keyfam == fam_of(alg)
         raised = None
+        stale_out = None
+        will_reject = (state == "signed" and action == "error") or (not matching and not (state == "signed" and action == "skip"))
+        if not will_reject and (CO.ALGS.index(alg) + len(action)) % 2 == 0:
+            # a longer file (an earlier, larger result) already lies at the output path
+            stale_out = data + bytes(range(256)) * 2
+            with open(out, "wb") as fh:
+                fh.write(stale_out)
+            acc.note("earlier-longer-file-at-output-path")
         try:
             sut.sign_single(inp, out, new_key, 0x22, alg, keys.dir, action)
         except boot.HarnessError:
@@ -144,6 +152,8 @@ def table_case(case, acc, ctx, keys):
                  sample=case, sample_key=f"table/{state}/{action}/{'m' if matching else 'x'}")
         wrote = os.path.exists(out)
         outb = open(out, "rb").read() if wrote else None
+        if wrote and stale_out is not None and outb == stale_out:
+            wrote, outb = False, None  # the earlier file is still there, untouched: nothing was written by this run
         if state == "signed" and action == "error":
             expect = "reject"
         elif state == "signed" and action == "skip":
@@ -502,7 +512,7 @@ def finalize(ctx, m, ev):
     c = m["counters"]
     ev["coverage"]["exhaustive_scope"] = "policy table (2 x 3 x 5 x 4 = 120 cases) enumerated completely; trees/configurations sampled"
     need = ["table", "omit-node", "omit-without-key-fields", "presigned-node", "depth:3", "route:cli", "negative:absent dependency",
-            "negative:dependency is not an envelope", "negative:already signed and action error", "distinct-keys:2", "scripts:env", "scripts:config+decoy-env", "key-file:der/match", "key-file:der/mismatch"]
+            "negative:dependency is not an envelope", "negative:already signed and action error", "distinct-keys:2", "scripts:env", "scripts:config+decoy-env", "key-file:der/match", "key-file:der/mismatch", "earlier-longer-file-at-output-path"]
     for n in need:
         if not c.get(n):
             raise boot.HarnessError(f"interesting class {n} is empty")
